@@ -54,19 +54,21 @@ Remove(t) ==
      ELSE UNCHANGED <<present, sends, added>> /\ Step(<<"remove", t>>, [found |-> FALSE, confirmed |-> 0])
   /\ UNCHANGED <<now, nnode>>
 
-\* a fresh connection asks what to send; `cands` = the transactions it may be given
-PickFrom(cands) ==
-  /\ nnode < MaxNodes
-  /\ nnode' = nnode + 1
-  /\ IF cands = {}
-     THEN UNCHANGED <<present, sends, added>> /\ Step(<<"pick", nnode + 1>>, "none")
+\* connection nd asks what to send; `cands` = the transactions it may be given. A connection that already has a transaction gets
+\* nothing more (the caller is not supposed to ask twice; the class refuses).
+HasTx(nd) == \E t \in present : \E i \in 1..Len(sends[t]) : sends[t][i].node = nd
+PickFrom(cands, nd) ==
+  /\ nd <= nnode + 1 /\ nd <= MaxNodes
+  /\ nnode' = IF nd = nnode + 1 THEN nnode + 1 ELSE nnode
+  /\ IF cands = {} \/ HasTx(nd)
+     THEN UNCHANGED <<present, sends, added>> /\ Step(<<"pick", nd>>, "none")
      ELSE \E t \in cands :
-            /\ sends' = [sends EXCEPT ![t] = Append(@, [node |-> nnode + 1, picked |-> now, conf |-> 0])]
+            /\ sends' = [sends EXCEPT ![t] = Append(@, [node |-> nd, picked |-> now, conf |-> 0])]
             /\ UNCHANGED <<present, added>>
-            /\ Step(<<"pick", nnode + 1>>, t)
+            /\ Step(<<"pick", nd>>, t)
   /\ UNCHANGED now
-Pick == PickFrom(Best)                                    \* as coded: the most urgent pending transaction
-PickAnyPending == PickFrom({t \in Txs : Pending(t)})      \* all the property asks for: some transaction with attempts left
+Pick(nd) == PickFrom(Best, nd)                                    \* as coded: the most urgent pending transaction
+PickAnyPending(nd) == PickFrom({t \in Txs : Pending(t)}, nd)      \* all the property asks for: some transaction with attempts left
 
 GetTxForNode(nd) ==
   /\ UNCHANGED <<present, sends, added, now, nnode>>
@@ -101,8 +103,7 @@ Init ==
 
 Act ==
   \/ \E t \in Txs : Add(t) \/ Remove(t)
-  \/ Pick
-  \/ \E nd \in 1..MaxNodes : (nd <= nnode + 1) /\ (GetTxForNode(nd) \/ Confirm(nd) \/ DidConfirm(nd))
+  \/ \E nd \in 1..MaxNodes : (nd <= nnode + 1) /\ (Pick(nd) \/ GetTxForNode(nd) \/ Confirm(nd) \/ DidConfirm(nd))
   \/ HavePending \/ GetStale
   \/ \E d \in {1, Stale + 1, InitialStale + 1} : Tick(d)
 Next == n < MaxSteps /\ Act
